@@ -47,11 +47,11 @@ Proof. exact PlannerProofs.subquery_closed. Qed.
 Print Assumptions subquery_closed.
 
 (** (2) Normalisation keeps every selection (one level of [flatten]; see the header for what is missing).
-    a: flattenFragments, after the @skip/@include filter planObject applies, is a permutation of CollectFields;
+    a: flattenFragments, after the @skip/@include filter planObject applies, is exactly CollectFields;
     b: mergeSameAlias (as repaired) gives each alias exactly the sub-selections the query gave it, in order. *)
 Theorem normalisation_keeps_every_selection_partial :
   (forall g obj l flat, flatten_frags g obj l = Some flat ->
-     Permutation (filter incl_node flat) (collect_all g obj l)) /\
+     filter incl_node flat = collect_all g obj l) /\
   (forall l r, Forall hs_ok l -> merge_same_alias false l = Some r -> forall a, subs_of a r = subs_of a l).
 Proof. split; [exact NormalizeProofs.flatten_frags_collects | exact NormalizeProofs.merge_same_alias_keeps_subs]. Qed.
 Print Assumptions normalisation_keeps_every_selection_partial.
@@ -65,10 +65,9 @@ Print Assumptions merge_same_alias_original_refuted.
 (** (3) Stitching: [graft] walks the result exactly as extractKeys does and consumes, from the front, exactly
     as many sub-results as extractKeys returned keys -- result i goes to target i. *)
 Theorem stitching_consumes_in_order :
-  forall fuel node path ks,
-    extract_keys true fuel node path = Some ks ->
-    forall rs extra node' rest, List.length rs = List.length ks ->
-      graft fuel node path (rs ++ extra) = Some (node', rest) -> rest = extra.
+  forall path node ks rs extra node' rest,
+    extract_keys true path node = Some ks -> List.length rs = List.length ks ->
+    graft path node (rs ++ extra) = Some (node', rest) -> rest = extra.
 Proof. exact ExecutorProofs.graft_consumes. Qed.
 Print Assumptions stitching_consumes_in_order.
 
@@ -76,8 +75,8 @@ Print Assumptions stitching_consumes_in_order.
     semantics where the code as it was did not.  F15: { self{p} self{ self{p} self{q} } } lost q. *)
 Theorem gateway_loses_repeated_alias_refuted :
   exists w g pick q,
-    option_map norm (fed_exec w g pick true true q) <> option_map norm (eval_ref w g 5 "Query" 0%Z q) /\
-    option_map norm (fed_exec w g pick false true q) = option_map norm (eval_ref w g 5 "Query" 0%Z q).
+    option_map norm (fed_exec w g pick true true q) <> option_map norm (eval_ref w g false 9 "Query" 0%Z q) /\
+    option_map norm (fed_exec w g pick false true q) = option_map norm (eval_ref w g false 9 "Query" 0%Z q).
 Proof.
   exists ww, wg, pick1, q15. destruct f15_repaired as [H1 H2]. split.
   - rewrite f15_original, H2. intros H. discriminate.
@@ -89,7 +88,7 @@ Print Assumptions gateway_loses_repeated_alias_refuted.
 Theorem gateway_fails_on_null_at_hop_refuted :
   exists w g pick q r,
     fed_exec w g pick false false q = None /\
-    option_map norm (eval_ref w g 5 "Query" 0%Z q) = Some r /\
+    option_map norm (eval_ref w g false 9 "Query" 0%Z q) = Some r /\
     option_map norm (fed_exec w g pick false true q) = Some r.
 Proof.
   exists ww, wg, pick1, q16, ans16. destruct f16_repaired as [H1 H2].
